@@ -249,6 +249,9 @@ pub fn render_token(tk: &Value) -> String {
         "D" => {
             let key = match tk["key"].as_str().unwrap() { "weight" => " key=\"weight\"", "alt" => " key=\"d7\"", "other" => " key=\"colour\"", _ => "" };
             let w = tk["w"].as_i64().unwrap_or(1);
+            if tk["txt"] == "selfclose" {
+                return format!("<data{}/>", key);
+            }
             let body = match tk["txt"].as_str().unwrap() {
                 "num" => format!("{}", w),
                 "pad" => format!(" {} ", w),
